@@ -229,9 +229,12 @@ func c20scripts(alpha string, n int, f func(s string)) {
 	rec(nil)
 }
 
-func c20run(script string, consumerStopsOnCancel bool, withCancel bool) (cfg func(*vs.Sched), main func(), check vs.CheckFunc) {
+// byDeadline: the scan's context carries a deadline and the event is that deadline passing (the context
+// ends with DeadlineExceeded instead of Canceled): cancellation all the same
+func c20run(script string, consumerStopsOnCancel bool, withCancel bool, byDeadline ...bool) (cfg func(*vs.Sched), main func(), check vs.CheckFunc) {
 	var e *c20env
 	var cancel context.CancelFunc
+	deadline := len(byDeadline) > 0 && byDeadline[0]
 	cfg = func(s *vs.Sched) {
 		e = &c20env{script: script}
 		cancel = nil
@@ -254,7 +257,14 @@ func c20run(script string, consumerStopsOnCancel bool, withCancel bool) (cfg fun
 	main = func() {
 		e.release = make(chan struct{})
 		var ctx context.Context
-		ctx, cancel = context.WithCancel(context.Background())
+		if deadline {
+			var stop context.CancelFunc
+			ctx, stop = context.WithDeadline(context.Background(), time.Now().Add(1000*time.Hour))
+			defer stop()
+			cancel = func() { vs.Expire(ctx) }
+		} else {
+			ctx, cancel = context.WithCancel(context.Background())
+		}
 		errc := NewReceiver(e, e).ReceivePackets(ctx)
 		fin := make(chan struct{})
 		go func() {
@@ -361,7 +371,7 @@ func verifC20(c *drv.Ctx) {
 		alpha, maxLen, maxLenD1 = "FPATtRUEBCXYar", 5, 4
 		ext, extLen = "FPpqZATtwarRUVHIMEBCXY", 4
 	}
-	c.R.Rule = fmt.Sprintf("every reachable read-outcome script of length <= %d over %q and of length <= %d over the extended alphabet %q (terminal symbols only last; p, q = frames whose processing fails with io.ErrUnexpectedEOF / EAGAIN, w = EWOULDBLOCK wrapped with %%w, a = EAGAIN in an os.SyscallError) x {consumer drains to close, consumer stops on cancel}; "+
+	c.R.Rule = fmt.Sprintf("every reachable read-outcome script of length <= %d over %q and of length <= %d over the extended alphabet %q (terminal symbols only last; p, q = frames whose processing fails with io.ErrUnexpectedEOF / EAGAIN, w = EWOULDBLOCK wrapped with %%w, a = EAGAIN in an os.SyscallError) x {consumer drains to close, consumer stops on cancel, consumer drains to close and the scan ends by its context's DEADLINE passing instead of a cancel call}; "+
 		"each run through the real ReceivePackets under the scheduler, reads being scheduling points: deviation bound 0 with the cancel event injected at every choice point for all scripts, bound 1 for scripts of length <= %d; "+
 		"non-trivial = script contains at least one frame or error symbol", maxLen, alpha, extLen, ext, maxLenD1)
 	seenScript := map[string]bool{}
@@ -372,8 +382,14 @@ func verifC20(c *drv.Ctx) {
 			return
 		}
 		seenScript[script] = true
-		for _, stop := range []bool{false, true} {
-			idx++
+		for mi, mode := range [][2]bool{{false, false}, {true, false}, {false, true}} {
+			stop, byDeadline := mode[0], mode[1]
+			if byDeadline && long {
+				continue
+			}
+			if mi < 2 {
+				idx++
+			}
 			if !c.Mine(idx) || c.Expired() {
 				continue
 			}
@@ -381,9 +397,12 @@ func verifC20(c *drv.Ctx) {
 			if len(script) <= maxLenD1 {
 				bound = 1
 			}
-			cfg, main, check := c20run(script, stop, !long)
+			cfg, main, check := c20run(script, stop, !long, byDeadline)
 			r := vs.Explore(vs.Options{Bound: bound, Iterate: true, Deadline: c.Deadline}, cfg, main, check)
 			name := fmt.Sprintf("script=%q consumerStopsOnCancel=%v", script, stop)
+			if byDeadline {
+				name += " cancelledByDeadline=true"
+			}
 			c.Explore(name, r, func(v vs.Violation) string { return "script=" + script })
 			if len(script) > 0 {
 				c.Nontrivial(1)
